@@ -71,7 +71,7 @@ def run(ctx):
     jobs.append(dict(module="MC_C05nat", name="MC_C05nat", view="View", workers=4 if quick else 8, timeout=3000, heap="4g",
                      constants=dict(natc, OutFile=core.tla_str(natout)), invariants=("Reduced",), properties=("InverseSound", "StepLaws")))
     # the limb-level field arithmetic underneath (assembly p256* primitives, fiat-crypto elements) on limb-structured residues
-    feljobs, felouts = fel.jobs(ctx, ["p256", "p256ord", "fiatp", "fiatn"])
+    feljobs, felouts = fel.jobs(ctx, ["p256", "p256ord", "fiatp", "fiatn", "natn", "natn9"])
     jobs += feljobs
     jobs.append(dict(module="KAT_EC", name="KAT_EC", constants={}, init_next=("Init", "Next"), workers=1, timeout=600, heap="1g"))
     jobs += toys
